@@ -3,7 +3,7 @@ from mir2smt import pearl as P
 import importlib
 def run(modname, fn, **kw):
     t=time.time()
-    crate=P.Crate(open('/var/tmp/pearl-verif/mir/pearl.mir').read(), '/var/tmp/pearl-verif/mir/src')
+    import os; D=os.environ.get('MIR_DIR','/var/tmp/pearl-verif/mir'); crate=P.Crate(open(D+'/pearl.mir').read(), D+'/src')
     mod=importlib.import_module('mir2smt.'+modname)
     try:
         r=getattr(mod, fn)(crate, **kw)
